@@ -420,6 +420,7 @@ type SpecFun struct {
 	Ret    string
 	Body   SExpr // nil = uninterpreted
 	Text   string
+	Pkg    string
 	Reads  []string // state components passed implicitly (heap-dependent uninterpreted function)
 }
 
@@ -448,6 +449,8 @@ type Contract struct {
 	File       string
 	Line       int
 	Pragmas    []string
+	DefaultInv []Clause // invariants for every loop that has no explicit loop clause
+	Captures   []Clause // closures: facts about the captured variables (checked where the closure is created)
 	Likes      []string // templates: contracts whose clauses are copied into this one
 	CallSites  []CallSiteClause
 	Uses       []SCall // lemma / axiom instances to assume
@@ -585,6 +588,27 @@ func loadSpecFile(path string, sf *SpecFile) error {
 				return fail(fmt.Errorf("props outside func"))
 			}
 			cur.Props = strings.Fields(rest)
+		case "loops":
+			if cur == nil {
+				return fail(fmt.Errorf("loops outside func"))
+			}
+			if !strings.HasPrefix(rest, "invariant ") {
+				return fail(fmt.Errorf("loops invariant EXPR expected"))
+			}
+			c, err := parseClause(strings.TrimSpace(rest[len("invariant "):]), cur.Props)
+			if err != nil {
+				return fail(err)
+			}
+			cur.DefaultInv = append(cur.DefaultInv, c)
+		case "captures":
+			if cur == nil {
+				return fail(fmt.Errorf("captures outside func"))
+			}
+			c, err := parseClause(rest, cur.Props)
+			if err != nil {
+				return fail(err)
+			}
+			cur.Captures = append(cur.Captures, c)
 		case "requires", "ensures", "ensures_on_panic", "panics_when", "free_ensures":
 			if cur == nil {
 				return fail(fmt.Errorf("%s outside func", kw))
